@@ -111,6 +111,8 @@ export async function run(ctx) {
       { decls: [G], parsers: [["A", T.lit(0)], ["B", T.lit("")], ["C", T.lit(97)], ["D", T.lit("a")], ["E", T.lit(true)], ["F", T.lit("true")], ["H", T.lit(1.5)], ["I", T.lit(1)], ["J", T.union([T.lit(97), T.lit(98)])], ["K", T.union([T.lit("a"), T.lit("b")])], ["L", T.union([T.lit(true), T.lit(1)])], ["M", T.union([T.lit("true"), T.lit(1)])]].map(([name, x]) => ({ name, t: inst(x) })) },
       // a string hole spans line breaks; the pattern must as well
       { decls: [], parsers: [{ name: "A", t: { k: "tpl", parts: ["a", T.kw("string")] } }, { name: "B", t: T.obj([T.prop("p", { k: "tpl", parts: [T.kw("string"), ".", T.kw("number")] })]) }] },
+      // named properties next to an index signature keyed by a template literal type
+      { decls: [], parsers: [{ name: "A", t: T.obj([T.prop("id", T.kw("string"))], { key: { k: "tpl", parts: ["data-", T.kw("string")] }, val: T.kw("number"), pname: "k" }) }, { name: "B", t: T.obj([T.prop("id", T.kw("string")), T.prop("n", T.kw("number"), true)], { key: { k: "tpl", parts: ["x", T.kw("number")] }, val: T.union([T.kw("boolean"), T.kw("null")]), pname: "k" }) }] },
       // what JSON cannot carry makes schema() throw, next to printable parsers
       { decls: [], parsers: [{ name: "A", t: T.obj([T.prop("name", T.kw("string")), T.prop("cb", { k: "fn" })]) }, { name: "B", t: T.obj([T.prop("name", T.kw("string"))]) }] },
       // declaration names that are members of Object.prototype or contain "$$"
